@@ -1,6 +1,6 @@
 (* C05 — command sequences acknowledge every packet once and stop at the final packet.  Statements only. *)
 From Zvt Require Import Base Length Cp437 Encoding Codec Lookup Transport TransportProps Sequence SequenceProps SpecCheck.
-From Zvt Require Import SeqLookup Client ClientLog.
+From Zvt Require Import SeqLookup Client ClientLog EnumProps CanonClass CanonRoundtrip.
 Open Scope N_scope.
 
 (* a well-formed reply script: acknowledgement, non-final replies, the first final reply, then anything.
@@ -73,6 +73,19 @@ Theorem C05_run_seq_is_fuel : forall m cmd ack vs s,
   run_seq_fuel (match rp ack s with (_, Some (_, _, r)) => S (length r) | _ => O end) m cmd ack vs s.
 Proof. exact run_seq_is_fuel. Qed.
 
+(* composition with C01 / C04 / C15: a reply serialised by the terminal side (any value of the class) and sitting in the connection's
+   buffer, followed by anything, reaches the caller as exactly that variant with that content, acknowledged, the rest left buffered *)
+Theorem C05_client_reads_what_was_serialised : forall q id d w k nm c v b rest,
+  settled (get_conn w id) -> w_now w <= d -> k_buf (get_conn w id) = b ++ rest ->
+  nodup_cf (map v_cf (q_replies q)) = true -> nth_error (q_replies q) k = Some (nm, c) ->
+  c_class c < 256 -> c_instr c < 256 -> (depth_fields (c_fields c) <= S FUEL)%nat ->
+  canon_cmd c v = Some b ->
+  seq_next q id PLoop d w =
+  NItem (IOk (N.of_nat k) v) (if is_final (q_mode q) (N.of_nat k) then PDone else PLoop)
+        (write_t (at_time (put_conn w id {| k_queue := []; k_close := true; k_buf := rest |}) (w_now w)) id ACK).
+Proof. exact poll_roundtrip. Qed.
+
+Print Assumptions C05_client_reads_what_was_serialised.
 Print Assumptions C05_client_exchange_agrees_with_trace_model.
 Print Assumptions C05_run_seq_is_fuel.
 Print Assumptions C05_client_poll_is_one_step.
